@@ -21,7 +21,7 @@ func (c03) Size(tier string) Size {
 	if tier == "thorough" {
 		return Size{Batches: 32, Cases: 8000}
 	}
-	return Size{Batches: 8, Cases: 800}
+	return Size{Batches: 16, Cases: 1500}
 }
 func (c03) Rule() string {
 	return "case = document as in C02 (every primary-data kind, 0..n included, meta, errors, links, any prefix with/without trailing slash, IDs and soft type names with characters JSON must escape) marshaled once as given and once with its included list rebuilt through a random sequence of Document.Include calls that repeats resources and re-includes primary-data members, with the primary data held in SoftCollection, WrapperCollection, Resources and the collection Range returns; also documents with data AND errors, and with included but no data. Oracle: independent structure validator over the output bytes (valid JSON, no duplicate members, top-level object with jsonapi and links.self, data xor errors, included only with data, string type/id, links.self == prefix+type+id, relationship links and data shapes, and - when included was built through Include only - no type/ID pair twice across data and included). Thorough additionally re-parses every output with python3's json module. Non-trivial = document with included resources, a collection of >= 2 or a relationship with data; distinct = spec + include sequence hash."
